@@ -16,10 +16,12 @@ import (
 	"github.com/deadsy/sdfx/sdf"
 	v2 "github.com/deadsy/sdfx/vec/v2"
 	v3 "github.com/deadsy/sdfx/vec/v3"
+	"verifharness/exprgen"
 	. "verifharness/kit"
+	"verifharness/sdfgen"
 )
 
-func main() { Main("C16", check) }
+func main() { Main("C16", check, exprgen.Gen, sdfgen.Gen) }
 
 const imp = "From Sdfx Require Import Sdf.C16Corr.\nOpen Scope float_scope."
 
